@@ -25,6 +25,7 @@ def model_validation():
     build.ensure_build()
     from worlds import dlis_phys, lis_phys, bit
     n = 0
+    n_chk = 0
     for p in sorted(glob.glob(os.path.join(build.REPO, 'example_data', 'RP66V1', 'data', '*'))):
         with open(p, 'rb') as f:
             by = f.read()
@@ -37,6 +38,20 @@ def model_validation():
         tif, recs = lis_phys.ref_read(by)
         assert recs and recs[0]['payload'][0] in (128, 130, 132), (p, recs[0]['payload'][:2])
         n += len(recs)
+        # the reference for the value of the checksum trailer is what field data says it is
+        if tif == 'none':
+            import struct
+            pos = 0
+            while pos + 4 <= len(by):
+                plen, attr = struct.unpack('>HH', by[pos:pos + 4])
+                if plen < 4:
+                    break
+                if attr & (1 << 12):
+                    n_chk += 1
+                    assert lis_phys.lis_checksum(by[pos:pos + plen - 2]) == int.from_bytes(by[pos + plen - 2:pos + plen], 'big'), \
+                        f'{p}: checksum trailer of the physical record at {pos} is not reproduced by the reference'
+                pos += plen
+    assert n_chk >= 100, f'only {n_chk} checksum trailers in the bundled LIS files: the checksum reference is not validated'
     for p in sorted(glob.glob(os.path.join(build.REPO, 'example_data', 'BIT', 'data', '*'))):
         with open(p, 'rb') as f:
             by = f.read()
